@@ -411,7 +411,13 @@ def published_gr4j(x1, x2, x3, x4, S, R, q1_init, q9_init, rain, pet):
 # cases are recognised by MEASURING the sensitivity: the same computation is repeated with
 # all inputs perturbed by a relative 1e-14, and K = 1e4 times the observed change is added to the
 # tolerance of each value.  Well-conditioned cases get no visible slack (K*1e-14 = 1e-10 relative per unit of condition number, below the 1e-9 tolerance).
+# A single one-sided perturbation misses half of the cases that sit on a floor()/comparison threshold (the jump is
+# only seen when the perturbation happens to push the quantity across), and a common scaling of everything leaves ratio
+# tests unchanged.  The sensitivity is therefore measured with SEVERAL perturbed runs: factors 1 +- 1e-14 and 1 +- 1e-13
+# applied separately to (a) all parameters, (b) the parameters with alternating sign, (c) the forcing (rain and PET),
+# (d) the initial states; per time step the LARGEST deviation over all runs counts.
 PERT = 1.0 + 1e-14
+PERT_DELTAS = (1e-14, -1e-14, 1e-13, -1e-13)
 KCOND = 10000.0
 
 
@@ -423,34 +429,82 @@ def abs_tol(ps, st0, rain):
     return 1e-12 * (1.0 + max([abs(p) for p in ps] + [0.0]) + max([abs(v) for v in st0] + [0.0]) + max(list(rain) + [0.0]))
 
 
+def _keep(model, which, k):
+    """entries that are structural, not quantities: GR4J x4 (decides the UH lengths) and the n1, n2 state entries"""
+    return model == 'GR4J' and ((which == 'ps' and k == 3) or (which == 'st' and k in (2, 3)))
+
+
 def perturb_case(model, ps, rain, pet):
-    ps2 = [p * PERT for p in ps]
-    if model == 'GR4J':
-        ps2[3] = ps[3]                 # x4 decides the UH lengths: keep
+    """the historical single perturbation (all parameters and rain times 1+1e-14)"""
+    ps2 = [p if _keep(model, 'ps', k) else p * PERT for k, p in enumerate(ps)]
     return ps2, [r * PERT for r in rain], pet
 
 
-def conditioned_agree(ri, rm, rp, rtol, atol, K=KCOND):
-    """ri: implementation, rm: reference (model), rp: reference on the perturbed input (parse_kresult triples).
-    None if |ri - rm| <= atol + rtol*max + K*|rm - rp| everywhere, else a description."""
-    if ri[0] != 'OK' or rm[0] != 'OK' or rp[0] != 'OK':
-        return 'outcome %s vs %s (perturbed %s)' % (ri[0], rm[0], rp[0])
-    rows_i, rows_m, rows_p = ri[1] + [ri[2]], rm[1] + [rm[2]], rp[1] + [rp[2]]
-    if [len(r) for r in rows_i] != [len(r) for r in rows_m] or [len(r) for r in rows_m] != [len(r) for r in rows_p]:
+def perturbed_cases(model, ps, st0, rain, pet):
+    """-> list of (delta, ps', st0', rain', pet') : see the comment above PERT_DELTAS"""
+    out = []
+    for d in PERT_DELTAS:
+        f = 1.0 + d
+        out.append((d, [p if _keep(model, 'ps', k) else p * f for k, p in enumerate(ps)], list(st0), list(rain), list(pet)))
+        out.append((d, [p if _keep(model, 'ps', k) else p * (f if k % 2 == 0 else 2.0 - f) for k, p in enumerate(ps)], list(st0), list(rain), list(pet)))
+        out.append((d, list(ps), list(st0), [r * f for r in rain], [e * f for e in pet]))
+        if any(v != 0.0 for k, v in enumerate(st0) if not _keep(model, 'st', k)):
+            out.append((d, list(ps), [v if _keep(model, 'st', k) else v * f for k, v in enumerate(st0)], list(rain), list(pet)))
+    return out
+
+
+def perturbed_weights(model, ps, st0, rain, pet):
+    """weight of each perturbed run in conditioned_agree: its deviation is scaled to the smallest perturbation (1e-14), so
+    that the larger ones help to cross thresholds without loosening the allowance of smoothly behaving cases"""
+    return [1e-14 / abs(d) for (d, _, _, _, _) in perturbed_cases(model, ps, st0, rain, pet)]
+
+
+def perturbed_lines(model, ps, st0, rain, pet):
+    """K-lines of all perturbed runs of one kernel case"""
+    return [kcase(model, p2, s2, [r2] if NINPUTS.get(model, 2) == 1 else [r2, e2]) for (_, p2, s2, r2, e2) in perturbed_cases(model, ps, st0, rain, pet)]
+
+
+def conditioned_agree(ri, rm, rps, rtol, atol, K=KCOND, info=None, weights=None):
+    """ri: implementation, rm: reference (model), rps: the reference on perturbed inputs -- ONE parse_kresult triple or a
+    LIST of them (see perturbed_cases).  None if |ri - rm| <= atol + rtol*max + K*sens everywhere, where sens at time t is
+    the largest (weighted, see perturbed_weights) |rm - rp| seen up to t in any output of any perturbed run; else a description.  If [info] is a dict it
+    receives 'amplification': largest relative change of a model output per unit of relative perturbation (taking the
+    perturbation as 1e-14, the smallest one used), and 'perturbed_runs'."""
+    if isinstance(rps, tuple):
+        rps = [rps]
+    if weights is None:
+        weights = [1.0] * len(rps)
+    weights = [w for w, rp in zip(weights, rps) if rp is not None]
+    rps = [rp for rp in rps if rp is not None]
+    if ri[0] != 'OK' or rm[0] != 'OK' or not rps or any(rp[0] != 'OK' for rp in rps):
+        return 'outcome %s vs %s (perturbed %s)' % (ri[0], rm[0], [rp[0] for rp in rps])
+    rows_i, rows_m = ri[1] + [ri[2]], rm[1] + [rm[2]]
+    rows_ps = [rp[1] + [rp[2]] for rp in rps]
+    shape = [len(r) for r in rows_m]
+    if [len(r) for r in rows_i] != shape or any([len(r) for r in rows_p] != shape for rows_p in rows_ps):
         return 'shape'
-    # the sensitivity at time t is the LARGEST change seen up to t in any output (an expanding map keeps
-    # whatever separation it has reached); the final states use the maximum over the whole run
+    # the sensitivity at time t is the LARGEST change seen up to t in any output of any perturbed run (an expanding map
+    # keeps whatever separation it has reached); the final states use the maximum over the whole run
     T = len(rows_m[0]) if rows_m[:-1] else 0
     sens_t = []
     cur = 0.0
+    amp = 0.0
     for t in range(T):
-        for b, p in zip(rows_m[:-1], rows_p[:-1]):
-            d = abs(b[t] - p[t]) if (math.isfinite(b[t]) and math.isfinite(p[t])) else float('inf')
-            cur = max(cur, d)
+        for w, rows_p in zip(weights, rows_ps):
+            for b, p in zip(rows_m[:-1], rows_p[:-1]):
+                if math.isfinite(b[t]) and math.isfinite(p[t]):
+                    d = w * abs(b[t] - p[t])
+                    amp = max(amp, d / max(abs(b[t]), 1e-3))
+                else:
+                    d = float('inf')
+                cur = max(cur, d)
         sens_t.append(cur)
-    for b, p in zip([rows_m[-1]], [rows_p[-1]]):
-        for y, z in zip(b, p):
-            cur = max(cur, abs(y - z) if (math.isfinite(y) and math.isfinite(z)) else float('inf'))
+    for w, rows_p in zip(weights, rows_ps):
+        for y, z in zip(rows_m[-1], rows_p[-1]):
+            cur = max(cur, w * abs(y - z) if (math.isfinite(y) and math.isfinite(z)) else float('inf'))
+    if info is not None:
+        info['amplification'] = amp / 1e-14
+        info['perturbed_runs'] = len(rps)
     for k, (a, b) in enumerate(zip(rows_i, rows_m)):
         last = (k == len(rows_i) - 1)
         for t, (x, y) in enumerate(zip(a, b)):
